@@ -7,6 +7,8 @@ import Req.H1.Origin
 import Req.H3.BodyWrite
 import Req.H1.RoundTrip
 import Req.Client.Replay
+import Req.Props.C01ConnSeq
+import Req.Driver.L.C16
 /-! Driver lanes of C01. -/
 namespace Req.Driver.L.C01
 open Req.Proto
@@ -391,7 +393,92 @@ def laneH3Retry : List String → String
     | _, _, _, _, _, _ => "bad-op"
   | _ => "bad-op"
 
+/-! ### sequences of requests on one connection (stateful field codec) -/
+
+/-- one request of a `c01connseq` line: what the send path decides, and how to render its list -/
+structure SeqReq where
+  item : Req.H2.ConnSeq.Item
+  /-- why nothing was written (`none` = the block is written) -/
+  refusal : Option String
+  order : List Bytes
+
+def decodeSeqReq (fl : Req.H2.Flavor) (lim : Option Nat) : List String → Option SeqReq
+  | [kind, m, raw, host, hdr, cl, hb, nb, gz] => do
+    let m ← decodeHex m
+    let raw ← decodeHex raw
+    let host ← decodeHex host
+    let hdr ← Wire.decodeHdr hdr
+    let cl ← decodeInt cl
+    let hb ← Wire.decodeBool hb
+    let nb ← Wire.decodeBool nb
+    let gz ← Wire.decodeBool gz
+    match Req.Url.parse raw with
+    | .error _ => none
+    | .ok u =>
+      let r : Req.H2.FReq := { method := m, url := u, host := host, header := hdr, contentLength := cl,
+                               hasBody := hb, noBody := nb, addGzip := gz, maxHeaderList := lim }
+      let order := Req.H1.orderList hdr
+      if kind == "cancelbefore" then
+        -- the context is already done when `encodeAndWriteHeaders` looks: nothing is enumerated
+        pure { item := { fields := [], admitted := false }, refusal := some "cancelled", order := order }
+      else match Req.H2.fields fl r with
+        | .error e =>
+          pure { item := { fields := [], admitted := false, late := e == .headerListTooLarge },
+                 refusal := some (C16.showFErr e), order := order }
+        | .ok fs => pure { item := { fields := fs, admitted := true }, refusal := none, order := order }
+  | _ => none
+
+def chunk9 : List String → List (List String)
+  | a :: b :: c :: d :: e :: f :: g :: h :: i :: rest => [a, b, c, d, e, f, g, h, i] :: chunk9 rest
+  | _ => []
+
+def showSeqFields (fs : List (Bytes × Bytes)) (order : List Bytes) : String :=
+  let pseudo := fs.filter fun f => f.1.head? == some 58
+  let regular := fs.filter fun f => f.1.head? != some 58
+  let listed := regular.filterMap fun f =>
+    if (Req.HeaderSort.lastIndex order f.1).isSome then some (Req.Ascii.canonicalMIMEHeaderKey f.1) else none
+  "ok " ++ C16.encodeFields pseudo ++ " " ++ C16.encodeFields (regular.mergeSort C16.fieldLe) ++ " " ++
+    encodeList listed
+
+/-- give every request its answer: the refusal, or the next list the server decoded -/
+def zipSeq : List SeqReq → List (List (Bytes × Bytes)) → List String
+  | [], _ => []
+  | r :: rs, ds =>
+    match r.refusal with
+    | some why => why :: zipSeq rs ds
+    | none =>
+      match ds with
+      | d :: ds' => showSeqFields d r.order :: zipSeq rs ds'
+      | [] => "missing" :: zipSeq rs []
+
+/-- `c01connseq <peer SETTINGS_MAX_HEADER_LIST_SIZE|-> {<send|cancelbefore> <method> <rawurl> <host>
+<hdr> <cl> <hasBody> <noBody> <gzip>}*`: the requests run one after the other on ONE connection; the
+client encodes the admitted ones with a stateful codec (`ConnSeq.Toy`), the server decodes the blocks
+in arrival order: per request the refusal class, or the field list the SERVER ends up with. -/
+def laneConnSeqFl (fl : Req.H2.Flavor) : List String → String
+  | lim :: rest =>
+    let lim? : Option (Option Nat) := if lim == "-" then some none else lim.toNat?.map some
+    match lim? with
+    | none => "bad-op"
+    | some lim =>
+      if rest.length % 9 != 0 then "bad-op" else
+      match (chunk9 rest).mapM (decodeSeqReq fl lim) with
+      | none => "bad-op"
+      | some reqs =>
+        let items := reqs.map (·.item)
+        let blocks := (Req.H2.ConnSeq.clientRun Req.Props.C01ConnSeq.Toy true [] items).2
+        match Req.H2.ConnSeq.serverRun Req.Props.C01ConnSeq.Toy [] blocks with
+        | none => "desync"
+        | some ds => " ; ".intercalate (zipSeq reqs ds)
+  | _ => "bad-op"
+
+def laneConnSeq : List String → String := laneConnSeqFl .h2
+/-- `c01connseq3 …`: the same for the HTTP/3 field list (one `requestWriter` / QPACK encoder per connection). -/
+def laneConnSeq3 : List String → String := laneConnSeqFl .h3
+
 def lanes : List (String × (List String → String)) := [
+  ("c01connseq", laneConnSeq),
+  ("c01connseq3", laneConnSeq3),
   ("c01h2retry", laneH2Retry),
   ("c01h1retry", laneH1Retry),
   ("c01h3retry", laneH3Retry),
